@@ -54,9 +54,9 @@ def VP(fq, n):
 SC = "barril.units._scalar:Scalar"
 QM = "barril.units._quantity"
 PROPS["C02"] = {
-    "tasks": lambda tier: [V(UDB + ":UnitDatabase.Convert"), V(UDB + ":UnitDatabase.GetInfo"), V(QM + ":Quantity.ConvertScalarValue"), V(QM + ":Quantity.__init__"), *VP(QM + ":ObtainQuantity", 16), V(SC + ".GetAbstractValue"), V("barril.units._abstractvaluewithquantity:AbstractValueWithQuantityObject.CreateCopy"), V("barril.units._array:Array.GetAbstractValue"), V("barril.units._abstractvaluewithquantity:AbstractValueWithQuantityObject.__init__#forms")] + VP("barril.units._fixedarray:FixedArray#operations", 15) + VP("barril.units.unit_system_manager:UnitSystemManager#operations", 12) + VP("barril.units._fraction_scalar:FractionScalar#like-a-scalar", 7),
+    "tasks": lambda tier: [V(UDB + ":UnitDatabase.Convert"), V(UDB + ":UnitDatabase._ConvertWithExp"), V(UDB + ":UnitDatabase.Convert#exponent-forms"), V(UDB + ":UnitDatabase.GetInfo"), V(QM + ":Quantity.ConvertScalarValue"), V(QM + ":Quantity.__init__"), *VP(QM + ":ObtainQuantity", 16), V(SC + ".GetAbstractValue"), V("barril.units._abstractvaluewithquantity:AbstractValueWithQuantityObject.CreateCopy"), V("barril.units._array:Array.GetAbstractValue"), V("barril.units._abstractvaluewithquantity:AbstractValueWithQuantityObject.__init__#forms")] + VP("barril.units._fixedarray:FixedArray#operations", 15) + VP("barril.units.unit_system_manager:UnitSystemManager#operations", 12) + VP("barril.units._fraction_scalar:FractionScalar#like-a-scalar", 7),
     "level": "proof",
-    "level_text": "Functional contracts, proved of the real bodies for arbitrary well-formed registries and all values: UnitDatabase.Convert (float/int/list/tuple/ndarray, elementwise, kind preserving) = conv; Quantity.ConvertScalarValue; Quantity.__init__ establishes the cached to-base function; ObtainQuantity resolution; Scalar.GetAbstractValue (own unit returns the stored value for simple and derived quantities) and CreateCopy on Scalars keep category. Array.GetValues (list, tuple, ndarray of unbounded length; sequences of tuples shape-bounded) = conv elementwise in a new container of the same kind, own unit / no unit returns the stored container; FixedArray.IndexAsScalar / ChangingIndex / CreateCopy(unit) (C11 contract); UnitSystemManager.ConvertToCurrent / ConvertScalarToCurrent (category kept); FractionScalar.GetValue (to within 1e-8, scale-only units); an object built from a category alone in a given unit carries the category default (construction-forms contract). ChangeScalars is a two-line wrapper over CreateCopy(value, unit) and is not separately under contract.",
+    "level_text": "Functional contracts, proved of the real bodies for arbitrary well-formed registries and all values: UnitDatabase.Convert (float/int/list/tuple/ndarray, elementwise, kind preserving) = conv; Quantity.ConvertScalarValue; Quantity.__init__ establishes the cached to-base function; ObtainQuantity resolution; Scalar.GetAbstractValue (own unit returns the stored value for simple and derived quantities) and CreateCopy on Scalars keep category. Array.GetValues (list, tuple, ndarray of unbounded length; sequences of tuples shape-bounded) = conv elementwise in a new container of the same kind, own unit / no unit returns the stored container; FixedArray.IndexAsScalar / ChangingIndex / CreateCopy(unit) (C11 contract); UnitSystemManager.ConvertToCurrent / ConvertScalarToCurrent (category kept); FractionScalar.GetValue (to within 1e-8, scale-only units); an object built from a category alone in a given unit carries the category default (construction-forms contract, Scalar(category, unit=u) included). Amounts in a power of a unit - UnitDatabase.Convert with (unit, exponent) lists/tuples on either side, the route Quantity.Convert takes for derived quantities - follow v [u**e] = v * r**e [w**e] for every scale-only pair with ratio r, every finite v (zero and negative included) and every integer e != 0 (math.pow kept uninterpreted, its laws instantiated on the applications the path makes, A15). ChangeScalars is a two-line wrapper over CreateCopy(value, unit) and is not separately under contract.",
     "level_note": "floats are reals; WF/QI assumed for inputs",
 }
 
@@ -76,24 +76,25 @@ ARITH_TRUSTED = [
     "floats as reals (A1); a//b is floor of the real quotient",
 ]
 PROPS["C03"] = {
-    "tasks": lambda tier: VP(UDB + ":UnitDatabase.Sum", 3) + VP(UDB + ":UnitDatabase.Subtract", 3) + VP(OPS_KEY, 10) + VP("barril.units._array:Array._DoOperation#operators", 12) + [("lemma_arith", {})],
+    "tasks": lambda tier: VP(UDB + ":UnitDatabase.Sum", 5) + VP(UDB + ":UnitDatabase.Subtract", 5) + VP(OPS_KEY, 10) + VP("barril.units._array:Array._DoOperation#operators", 12) + [("lemma_arith", {})],
     "level": "proof",
-    "level_text": "UnitDatabase.Sum/Subtract and the Scalar operators + and - (through Python's operator dispatch) are verified against a functional contract for operand quantities that are symbolic in every category, unit, exponent (unbounded integers), caption and value: the result has the left operand's categories and exponents with the matched units, the value is v1 +/- v2 re-expressed by the conversions unit -> matched unit, different dimensions raise. A log-domain lemma over the contract shows the result's base magnitude is the sum/difference of the operands' (hence a+b = b+a and (a+b)-b = a physically). Per shape (number of composing entries per operand: 0, 1, 2; thorough adds more pairs) this is a complete proof; across shapes it is a bound. The case 're-expressed entry with exponent other than 1' is a recorded known finding.",
-    "level_note": "shape-bounded: operands with at most 2 composing entries (quick: 9 shape pairs, thorough: 14); preconditions N1 (a quantity-type name that is also a category names itself) and normalised operands; Arrays (element by element, any length and container kind) through the Array operator contract shared with C10; floats are reals",
+    "level_text": "UnitDatabase.Sum/Subtract and the Scalar operators + and - (through Python's operator dispatch) are verified against a functional contract for operand quantities that are symbolic in every category, unit, exponent (unbounded integers), caption and value: the result has the left operand's categories and exponents with the matched units, the value is v1 +/- v2 re-expressed by the conversions unit -> matched unit, different dimensions raise. A log-domain lemma over the contract shows the result's base magnitude is the sum/difference of the operands' (hence a+b = b+a and (a+b)-b = a physically). Per shape (number of composing entries per operand: 0, 1, 2; thorough adds more pairs) this is a complete proof; across shapes it is a bound. An entry re-expressed with an exponent other than 1 scales by the unit ratio raised to that exponent (scale-only pairs; through the _ConvertWithExp contract) - the defect found here (exponent ignored) is repaired by f801d71.",
+    "level_note": "shape-bounded: operands with at most 2 composing entries (quick: 10 shape pairs for + and -, 9 for the others; thorough: 14); preconditions N1 (a quantity-type name that is also a category names itself) and normalised operands; Arrays (element by element, any length and container kind) through the Array operator contract shared with C10; floats are reals",
     "trusted": ARITH_TRUSTED,
 }
 PROPS["C04"] = {
     "tasks": lambda tier: VP(UDB + ":UnitDatabase.Multiply", 4) + VP(UDB + ":UnitDatabase.Divide", 5) + VP(UDB + ":UnitDatabase.FloorDivide", 5) + VP(OPS_KEY, 10) + VP("barril.units._array:Array._DoOperation#operators", 12) + [("lemma_arith", {})],
     "level": "proof",
-    "level_text": "UnitDatabase.Multiply/Divide/FloorDivide and the Scalar operators *, /, // are verified against a functional contract for symbolic operand quantities (all names, units, unbounded integer exponents and values symbolic): the result's composing map is exactly the merged map (exponents added/subtracted per category, entries with zero exponent or zero joined exponent dropped), its exponent per quantity type is the sum/difference of the operands', no zero exponent survives, the value is v1 op v2 after matching; division by a zero amount raises. Log-domain lemmas over the contract give 'base magnitudes multiply/divide' and the dimension rule for every shape up to (2,2) (thorough (3,3)). The case 're-expressed entry with exponent other than 1' is a recorded known finding. a**n is not yet under contract.",
+    "level_text": "UnitDatabase.Multiply/Divide/FloorDivide and the Scalar operators *, /, // are verified against a functional contract for symbolic operand quantities (all names, units, unbounded integer exponents and values symbolic): the result's composing map is exactly the merged map (exponents added/subtracted per category, entries with zero exponent or zero joined exponent dropped), its exponent per quantity type is the sum/difference of the operands', no zero exponent survives, the value is v1 op v2 after matching; division by a zero amount raises. Log-domain lemmas (every re-expressed entry contributes e*(L(u)-L(m)), any exponent) over the contract give 'base magnitudes multiply/divide' and the dimension rule for every shape up to (2,2) (thorough (3,3)). An entry re-expressed with an exponent other than 1 scales by the unit ratio raised to that exponent (scale-only pairs; through the _ConvertWithExp contract) - the defect found here (exponent ignored) is repaired by f801d71. a**n is not yet under contract.",
     "level_note": "shape-bounded as C03; preconditions N1 and normalised operands; floats are reals; a//b = floor of the real quotient",
     "trusted": ARITH_TRUSTED,
 }
 PROPS["C09"] = {
-    "tasks": lambda tier: VP(OPS_KEY, 10) + VP(AR + "._DoOperation#operators", 12),
+    "tasks": lambda tier: VP(OPS_KEY, 10) + VP(AR + "._DoOperation#operators", 12)
+    + [("bounded_native", {"probe": "c09_float_bounded", "props": ["C09"], "bound": "10 values x 12 numbers k x 5 operators (+ - * / //), both operand orders, Scalar / Array over list, tuple, ndarray / FixedArray, plus one integer above 2**53 (1621 evaluations)", "what": "the operators apply exactly Python's / numpy's own float operation to the stored values (bit-for-bit), which the real-number model cannot distinguish from floor(fl(a/b)) or a value routed through a rounded intermediate"})],
     "level": "proof",
     "level_text": "For a Scalar x (simple, derived or empty quantity; thorough adds two-entry derived) and a plain int/float (thorough: numpy float) k, each of k*x, x*k, x/k, x//k, x+k, k+x, x-k, k-x, evaluated through Python's binary-operator dispatch on the real __op__/__rop__/_DoOperation bodies, is proved to return a new Scalar holding x's own quantity object and the operation applied to the value; k/x and k//x are proved to go through the database division with the empty quantity (reciprocal exponents, value k/x). The same is proved for list-, tuple- and numpy-backed Arrays of unbounded length with an int/float k on either side (Array._DoOperation with the database operations' contracts, see C10). A numpy array or numpy scalar k on the LEFT of an Array is decided by numpy's dispatch, which is outside the verified code (not claimed).",
-    "level_note": "numpy-left operands (numpy scalar/ndarray OP Array) not claimed; numpy division excluded; floats are reals; IsNumber's isinstance test on numpy.number modelled by the interpreter's type table",
+    "level_note": "numpy-left operands (numpy scalar/ndarray OP Array) not claimed; numpy division excluded; floats are reals - the bit-exactness of the float operation itself (e.g. 1.0 // 0.1 == 9.0, not floor(fl(1.0/0.1)) == 10.0) is outside the real model and covered only by a BOUNDED native stand-in (grid stated in the evidence, never counted as proved); IsNumber's isinstance test on numpy.number modelled by the interpreter's type table",
     "trusted": ARITH_TRUSTED,
 }
 
@@ -114,7 +115,7 @@ STD_TRUSTED = [
 ]
 PROPS["C05"] = {
     "tasks": lambda tier: [V(UDB + ":UnitDatabase.GetInfo"), V(UDB + ":UnitDatabase.Convert"), V(UDB + ":UnitDatabase.CheckCategoryUnit"), V(QM + ":Quantity.__init__"), *VP(QM + ":ObtainQuantity", 16), V(QM + ":Quantity.ConvertScalarValue"), V(SC + ".__lt__#ordering")]
-    + VP(UDB + ":UnitDatabase.Sum", 3) + VP(UDB + ":UnitDatabase.Subtract", 3) + VP(OPS_KEY, 10) + VP(AOPS_KEY, 12),
+    + VP(UDB + ":UnitDatabase.Sum", 5) + VP(UDB + ":UnitDatabase.Subtract", 5) + VP(OPS_KEY, 10) + VP(AOPS_KEY, 12),
     "level": "proof",
     "level_text": "Exceptional postconditions, proved of the real bodies for arbitrary well-formed registries and symbolic arguments, in both directions (raises when it must, returns when it must not): GetInfo raises InvalidUnitError iff the unit does not resolve inside the (existing) quantity type and InvalidQuantityTypeError iff the type does not exist, with the explicit Unknown exemption; Convert, Quantity.ConvertScalarValue and Scalar.GetValue inherit; CheckCategoryUnit raises iff the unit is not valid for the category on the memo-hit and the memo-miss path; Quantity.__init__/ObtainQuantity raise for a unit outside the category's quantity type (after the legacy rewrite); adding/subtracting Scalars or Arrays of different dimensions raises InvalidOperationError with dimensionless operands exempt; ordering Scalars of different quantity types raises TypeError. On every path, raising or not, the registry is proved unchanged except for consistent memo/intern-table insertions, the operand value objects and the operand quantities are unchanged (frame obligations).",
     "level_note": "arithmetic shape-bounded as C03; registry invariants WF/CC assumed for inputs; FractionScalar ordering not yet under contract",
@@ -131,10 +132,10 @@ PROPS["C07"] = {
 
 AVQ = "barril.units._abstractvaluewithquantity:AbstractValueWithQuantityObject"
 PROPS["C15"] = {
-    "tasks": lambda tier: [V(UDB + ":UnitDatabase.GetInfo"), V(UDB + ":UnitDatabase.Convert"), V(UDB + ":UnitDatabase.CheckCategoryUnit"), V(UDB + ":UnitDatabase.GetDefaultCategory"), V(UDB + ":UnitDatabase.GetValidUnits"), V(AVQ + ".GetValidUnits"), V(UDB + ":UnitDatabase.AddUnit"), V(UDB + ":UnitDatabase.AddUnitBase"), V(QM + ":Quantity.ConvertScalarValue"), V(QM + ":Quantity.CheckValue"), V(QM + ":Quantity.__init__"), V(SC + ".GetAbstractValue"), V(AVQ + ".CreateCopy"), V(QM + ":Quantity#value-semantics")]
+    "tasks": lambda tier: [("table_c15_queries", {"filler": "posc"}), ("table_c15_queries", {"filler": "simple"})] + [V(UDB + ":UnitDatabase.GetInfo"), V(UDB + ":UnitDatabase.Convert"), V(UDB + ":UnitDatabase.CheckCategoryUnit"), V(UDB + ":UnitDatabase.GetDefaultCategory"), V(UDB + ":UnitDatabase.GetValidUnits"), V(AVQ + ".GetValidUnits"), V(UDB + ":UnitDatabase.AddUnit"), V(UDB + ":UnitDatabase.AddUnitBase"), V(QM + ":Quantity.ConvertScalarValue"), V(QM + ":Quantity.CheckValue"), V(QM + ":Quantity.__init__"), V(SC + ".GetAbstractValue"), V(AVQ + ".CreateCopy"), V(QM + ":Quantity#value-semantics")]
     + VP(ADDCAT, 16) + VP(QM + ":ObtainQuantity", 16) + VP(OPS_KEY, 10),
     "level": "proof",
-    "level_text": "Purity as frame obligations on every function under contract: lookups (GetInfo, GetDefaultCategory, GetValidUnits, value.GetValidUnits), conversions (Convert, ConvertScalarValue, Scalar.GetValue), validity checks (CheckCategoryUnit, CheckValue), construction (Quantity.__init__, ObtainQuantity, CreateCopy), comparisons/copies and Scalar arithmetic are proved to leave the three registry dictionaries unchanged (array equality pre = post); the only writes are insert-only additions to the validity memo and the intern table. Cache invisibility: CheckCategoryUnit's memo-hit and memo-miss paths return the same verdict (memo consistent with the registry: invariant CC, proved preserved by CheckCategoryUnit and by the mutators AddUnit/AddUnitBase/AddCategory, which now clear it); ObtainQuantity's hit and miss paths return a quantity denoting the same request. Hence every answer is a function of the registry and the arguments - the same on a warm and on a fresh database (meta-step A9).",
+    "level_text": "Purity as frame obligations on every function under contract: lookups (GetInfo, GetDefaultCategory, GetValidUnits, value.GetValidUnits), conversions (Convert, ConvertScalarValue, Scalar.GetValue), validity checks (CheckCategoryUnit, CheckValue), construction (Quantity.__init__, ObtainQuantity, CreateCopy), comparisons/copies and Scalar arithmetic are proved to leave the three registry dictionaries unchanged (array equality pre = post); the only writes are insert-only additions to the validity memo and the intern table. Cache invisibility: CheckCategoryUnit's memo-hit and memo-miss paths return the same verdict (memo consistent with the registry: invariant CC, proved preserved by CheckCategoryUnit and by the mutators AddUnit/AddUnitBase/AddCategory, which now clear it); ObtainQuantity's hit and miss paths return a quantity denoting the same request. Hence every answer is a function of the registry and the arguments - the same on a warm and on a fresh database (meta-step A9). Ground half (the queries without a functional contract, incl. the whole-registry listings GetUnits() / GetInfos() / GetQuantityTypes() / IterCategories(), the name lookups and checks): 67 calls of 24 read-only methods are executed from their real AST on the registries the posc and simple fillers build; after each call the registry (lists, dictionaries, UnitInfo / CategoryInfo fields, object identities) is compared with before, and each call is repeated and must answer the same.",
     "level_note": "queries not under contract: GetUnits/GetBaseUnit/GetInfos/GetUnitName (inlined where called), the unit-system manager; intern-table consistency after AddCategory(override=True) (cached quantities keep the replaced CategoryInfo) is not covered; arithmetic shape-bounded as C03",
     "trusted": STD_TRUSTED,
 }
@@ -188,9 +189,9 @@ PROPS["C17"] = {
 }
 
 PROPS["C06"] = {
-    "tasks": lambda tier: [("table_c06", {"chunk": c, "nchunks": 7}) for c in range(7)],
+    "tasks": lambda tier: [("table_c06", {"chunk": c, "nchunks": 7}) for c in range(7)] + [V(UDB + ":UnitDatabase._ConvertWithExp"), V(UDB + ":UnitDatabase.Convert#exponent-forms")],
     "level": "proof",
-    "level_text": "Exhaustive over the shipped table: the coefficient tuples of all 1548 rows are read, as exact decimal text, from the real AST of posc.FillUnitDatabaseWithPosc on every run (and cross-checked, row by row, against the slope of the to-base closure the real code builds, executed by the interpreter). A unit symbol is decomposed by the table's own grammar (one '/', factors separated by '.', integer exponent suffixes, numeric prefixes such as 1000ft3, registered symbols as atoms; a registered 'X<e>' counts as a power of X only when named after X). For each of the ~970 decomposable rows the obligation factor(u) x c_T == product of the component factors (c_T: the same product for the quantity type's base symbol) is decided in exact rational arithmetic, and for each of the ~150 atomic rows named '<SI prefix><name of X>' the obligation factor == 10^(n.e) x factor(X); the tolerance is the precision the rows are written in (half a unit in the last written digit of every non-exact literal involved, floor 1e-9). Rows that genuinely disagree with their parts are recorded one by one as known findings (or repaired); any other row that starts to disagree - one digit in one tuple - fails its own named obligation with a native replay.",
+    "level_text": "Exhaustive over the shipped table: the coefficient tuples of all 1548 rows are read, as exact decimal text, from the real AST of posc.FillUnitDatabaseWithPosc on every run (and cross-checked, row by row, against the slope of the to-base closure the real code builds, executed by the interpreter). A unit symbol is decomposed by the table's own grammar (one '/', factors separated by '.', integer exponent suffixes, numeric prefixes such as 1000ft3, registered symbols as atoms; a registered 'X<e>' counts as a power of X only when named after X). For each of the ~970 decomposable rows the obligation factor(u) x c_T == product of the component factors (c_T: the same product for the quantity type's base symbol) is decided in exact rational arithmetic, and for each of the ~150 atomic rows named '<SI prefix><name of X>' the obligation factor == 10^(n.e) x factor(X); the tolerance is the precision the rows are written in (half a unit in the last written digit of every non-exact literal involved, floor 1e-9). Rows that genuinely disagree with their parts are recorded one by one as known findings (or repaired); any other row that starts to disagree - one digit in one tuple - fails its own named obligation with a native replay. The second reading of the property (a Scalar in the named unit vs the amount built from component Scalars) also needs the exponent-aware conversion that compares them: UnitDatabase._ConvertWithExp and the (unit, exponent) forms of UnitDatabase.Convert are under the power-law contract v [u**e] -> v * r**e [w**e] (proved of the real bodies for all v, all integer e != 0, scale-only pairs).",
     "level_note": "symbols with two or more '/' are written both for a/(b.c) and a/(b/c) in the table and are not read (ambiguous); affine units enter through their slope; the equivalence with 'a Scalar in the named unit equals the product/quotient of Scalars in the component units' goes through C04's magnitude lemma and is replayed natively by probe c06_row; ground arithmetic with Python Fractions (no solver)",
     "trusted": ["Python fractions.Fraction (exact rational arithmetic)", "ast.parse reads the literals CPython runs (A4); closures cross-checked by executing their real AST"],
     "technique": "contract-based deductive verification: per-row ground obligations of the table function's quantified postcondition, generated from the real AST, decided in exact rational arithmetic",
@@ -207,3 +208,79 @@ PROPS["C18"] = {
     "level_note": "formatting/parsing and CreateFromFloat are a bounded stand-in only (grid stated in the evidence), never counted as proved; Fraction ** and % not under contract; floats are reals; partial correctness (termination of the scaling loop not proved, A14)",
     "trusted": STD_TRUSTED + ["fractions.Fraction is an exact rational (A11), modelled in pyvc/rational.py"],
 }
+
+
+# ------------------------------------------------------------------------------------------------
+# Callee closure.  Verification is modular: a caller's proof assumes its callees' contracts.  A property's
+# check therefore also verifies, against their real bodies, the callee clauses its argument rests on, and
+# counts them as its own obligations ("tag": the clause patterns that carry the property; other clauses of
+# the same callee - legacy spellings, error cases - are left to the properties they belong to, so that a
+# change which breaks only those does not raise an alarm here).
+_GI, _CV, _CSV, _QI, _OQ = UDB + ":UnitDatabase.GetInfo", UDB + ":UnitDatabase.Convert", QM + ":Quantity.ConvertScalarValue", QM + ":Quantity.__init__", QM + ":ObtainQuantity"
+_NOTCONV = ["*legacy*", "*invalid-unit*", "*no-quantity-type*"]
+DEP_CONV = [
+    (_GI, 1, ["*/post?direct?*", "*/post?via-category?*", "*/post?unknown?*"], [], None),
+    (_CV, 1, ["*/post?same-unit?*", "*/post?from:*"], _NOTCONV, None),
+    (_CSV, 1, ["*/post?own-unit?*", "*/post?to:direct?*", "*/post?to:via-category?*", "*/post?to:unknown?*"], [], None),
+    (_QI, 1, ["*/post?valid-unit?*", "*/post?default-unit?*"], [], None),
+]
+DEP_OBTAIN = [
+    (_OQ, 16, ["*/post?resolved?*", "*/post?registered/resolved?*", "*/post?single-exp1/resolved?*", "*/post?derived/interned?*", "*/intern?*"], [], None),
+    (_QI, 1, ["*/post?valid-unit?*", "*/post?default-unit?*"], [], None),
+]
+_DBOPS = [(UDB + ":UnitDatabase.Sum", 5), (UDB + ":UnitDatabase.Subtract", 5), (UDB + ":UnitDatabase.Multiply", 4), (UDB + ":UnitDatabase.Divide", 5), (UDB + ":UnitDatabase.FloorDivide", 5)]
+# number operands go through the database operations with an empty quantity on one side
+DEP_DBOPS_EMPTY = [(fq, 2, ["*/post?*"], ["*different-dimensions*"], ["*empty*"]) for fq, n in _DBOPS]
+# operand quantities / registry untouched by the database operations (their own frame clauses)
+DEP_DBOPS_FRAME = [(fq, n, ["*/frame?operand quantities unchanged?*"], [], None) for fq, n in _DBOPS]
+DEP_LEGACY = [
+    (_OQ, 16, ["*/post?legacy/*"], [], None),
+    (_QI, 1, ["*/post?legacy-unit?*"], [], None),
+    (_CSV, 1, ["*/post?to:legacy?*"], [], None),
+    (UDB + ":UnitDatabase.GetDefaultCategory", 1, ["*/post?legacy/*"], [], None),
+    # category registration: legacy spellings of valid / default units end up as the current symbols
+    (ADDCAT, 16, ["*/post?W3 for the new category*", "*/inv?W3*", "*/post?stored*"], [], ["*,nodv,nomin,nomax"]),
+]
+DEPS = {
+    "C03": DEP_CONV + DEP_OBTAIN,
+    "C04": DEP_CONV + DEP_OBTAIN,
+    "C08": DEP_CONV,
+    "C09": DEP_CONV + DEP_OBTAIN + DEP_DBOPS_EMPTY,
+    "C11": DEP_CONV + DEP_OBTAIN,
+    "C12": DEP_CONV,
+    "C13": DEP_OBTAIN + DEP_DBOPS_FRAME,
+    "C16": DEP_LEGACY,
+    "C17": DEP_CONV + DEP_OBTAIN,
+    "C18": DEP_CONV,
+    "C19": DEP_CONV,
+}
+
+
+def _with_deps(pid, base):
+    def tasks(tier):
+        out = list(base(tier))
+        for fq, n, inc, exc, vf in DEPS.get(pid, []):
+            tag = {"prop": pid, "include": inc, "exclude": exc}
+            present = [t for t in out if t[0] == "verify" and t[1]["fq"] == fq]
+            if present:
+                for t in present:
+                    if "tag" in t[1]:
+                        t[1]["tag"]["include"] = t[1]["tag"]["include"] + inc
+                    else:
+                        t[1]["tag"] = dict(tag)
+                continue
+            for i in range(n):
+                a = {"fq": fq, "tag": dict(tag)}
+                if n > 1:
+                    a.update(part=i, nparts=n)
+                if vf:
+                    a["vfilter"] = vf
+                out.append(("verify", a))
+        return out
+
+    return tasks
+
+
+for _pid in DEPS:
+    PROPS[_pid]["tasks"] = _with_deps(_pid, PROPS[_pid]["tasks"])
+    PROPS[_pid]["level_note"] = PROPS[_pid].get("level_note", "") + "; callee closure: the clauses of the conversion / interning / database-operation contracts this property's proofs assume are re-verified against their bodies in this check and counted as its obligations (tagged_dependency)"
